@@ -14,7 +14,7 @@ TECHNIQUE = ("model-based round-trip property-based testing: conforming document
              "must report that encoding and give the tree predicted by a tree-level model of the inject-meta-charset filter applied to the unencoded tree")
 RULE = ("Conforming documents (vf/gen/conforming.py) whose head holds 0..3 extra meta elements (charset=, http-equiv content-type in both attribute orders and spellings, unrelated metas) at any "
         "position, optionally a meta in body, optionally > 1024 bytes before <head> (long comment / html attribute), with non-ASCII and astral text and attribute values; comments are constructed "
-        "inside the codec's repertoire; x 40 output labels that both Python's codecs and webencodings accept (ASCII-compatible; utf-16 only as a pinned finding) x optional-tag omission on/off x "
+        "inside the codec's repertoire; x 48 output labels (nine of them underscore / colon spellings without a hyphenated twin) that both Python's codecs and webencodings accept (ASCII-compatible; utf-16 only as a pinned finding) x optional-tag omission on/off x "
         "walker. Oracle: parse(bytes) with no hints reports documentEncoding == webencodings.lookup(label).name; its tree == model(tree of the document): every meta with a charset attribute gets "
         "the label, every http-equiv=content-type meta with content gets 'text/html; charset=<label>', and if the head had none a <meta charset> is its first child; a declaration for the encoding is "
         "inside head. Non-trivial = the document has non-ASCII characters the codec cannot express or >= 1 pre-existing declaration or > 1024 bytes before head; distinct = (document, label, omission).")
@@ -25,7 +25,9 @@ SHRINK = {}
 
 LABELS = ["utf-8", "utf8", "UTF-8", "ascii", "us-ascii", "iso-8859-1", "latin1", "windows-1252", "cp1252", "iso-8859-2", "latin2", "iso-8859-5", "iso-8859-7", "greek", "iso-8859-15",
           "koi8-r", "koi8-u", "windows-1250", "windows-1251", "cp1251", "windows-1253", "windows-1254", "windows-1255", "windows-1256", "windows-1257", "windows-1258", "ibm866", "cp866",
-          "macintosh", "shift_jis", "sjis", "euc-jp", "euc-kr", "gbk", "gb2312", "gb18030", "big5", "iso-8859-4", "iso-8859-13", "iso-8859-9"]
+          "macintosh", "shift_jis", "sjis", "euc-jp", "euc-kr", "gbk", "gb2312", "gb18030", "big5", "iso-8859-4", "iso-8859-13", "iso-8859-9",
+          # labels with an underscore whose hyphenated spelling is NOT a label (a reader that "tidies" labels loses them)
+          "ks_c_5601-1987", "elot_928", "iso_8859-2:1987", "iso_8859-5:1988", "iso_8859-7:1987", "ansi_x3.4-1968", "ecma-118", "csisolatin2", "x-mac-roman"]
 
 
 def usable_labels():
